@@ -8,7 +8,7 @@ import enum
 import types
 from decimal import Decimal
 
-from vf.hutil import quiet
+from vf.hutil import quiet, untraced
 
 quiet()
 
@@ -190,14 +190,23 @@ def _port_type(cls, cap):
     return inst
 
 
-def mk_provider(mv=0, **kw):
-    """-> (mdib, capture). The transaction observable is bound to the real SdcProvider._send_episodic_reports."""
+def mk_provider(mv=0, containers=None, **kw):
+    """-> (mdib, capture). The transaction observable is bound to the real SdcProvider._send_episodic_reports.
+
+    Construction touches only concrete data and runs without CrossHair's tracer; the (possibly symbolic) MdibVersion is planted
+    afterwards."""
+    with untraced():
+        mdib, cap = _mk_provider(containers, kw)
+    mdib.mdib_version = mv
+    return mdib, cap
+
+
+def _mk_provider(containers, kw):
     mdib = ProviderMdib()
-    ds = mk_containers(**kw)
+    ds = containers if containers is not None else mk_containers(**kw)
     set_source_mds(ds)
     mdib.add_description_containers(ds)
     mdib.add_state_containers(mk_states(mdib, ds))
-    mdib.mdib_version = mv
     mdib.sequence_id = SEQ
     mdib.instance_id = 1
     cap = Capture()
@@ -217,15 +226,16 @@ def mk_provider(mv=0, **kw):
 
 
 def mk_consumer(mv=0, containers=None, **kw):
-    mdib = ConsumerMdib(StubClient())
-    ds = containers if containers is not None else mk_containers(**kw)
-    set_source_mds(ds)
-    mdib.add_description_containers(ds)
-    mdib.add_state_containers(mk_states(mdib, ds))
+    with untraced():
+        mdib = ConsumerMdib(StubClient())
+        ds = containers if containers is not None else mk_containers(**kw)
+        set_source_mds(ds)
+        mdib.add_description_containers(ds)
+        mdib.add_state_containers(mk_states(mdib, ds))
+        mdib.sequence_id = SEQ
+        mdib.instance_id = 1
+        mdib._state = ConsumerMdibState.initialized
     mdib.mdib_version = mv
-    mdib.sequence_id = SEQ
-    mdib.instance_id = 1
-    mdib._state = ConsumerMdibState.initialized
     return mdib
 
 
